@@ -38,6 +38,20 @@ CHECKS["C19"] = (
     "DESIGN.md §4 C19",
 )
 
+CHECKS["C11"] = (
+    "E-CH",
+    "CrossHair/z3 symbolic execution of the real Namespace class over symbolic operation histories, compared with a nested-dict reference model",
+    "Bounded symbolic model checking of the real code. The history itself is the solver's input: per step z3 integers choose one of 7 "
+    "mutators (item/attribute assignment, del, pop, update with a namespace, update with key, update only_unset), a dotted key (ordinary "
+    "names, method-name clashes, depth <= 2; thorough: depth 3 and more clashes) and a value kind; leaf values are symbolic ints. After "
+    "every step all observers (getitem, in, get, items/keys/values with and without branches, as_dict, clone and its independence, ==, "
+    "dict conversions, dotted vs. step-by-step access) are compared with a nested-dict model. All histories of length <= 2 are exhausted "
+    "(quick and thorough), length 3 over a reduced alphabet in the thorough tier.",
+    "Trusted: the 60-line reference model (an assignment through a leaf turns it into a branch; del of a missing key raises), CrossHair/z3. "
+    "Outside: histories longer than the bound, dict-valued leaves and keys that traverse them, histories not starting from the empty namespace.",
+    "DESIGN.md §4 C11",
+)
+
 NOT_APPLICABLE = {
     "C13": "the resolver's only input is source code on disk (inspect.getsource/ast.parse/import); a symbolic program cannot be "
     "represented for that code and types/defaults are part of the program, so no dimension of the quantifier can be a solver variable",
